@@ -76,7 +76,7 @@ func VerifC13() {
 			rt.Assert(err == nil, "LoadRules reports no error")
 			ref = nil
 			for _, r := range snap {
-				if r != nil && IsValidSystemRule(r) == nil {
+				if r != nil && verifIsValidSys(r) {
 					ref = append(ref, *r)
 				}
 			}
@@ -106,4 +106,10 @@ func VerifC13() {
 		rt.Assert(len(GetRules()) == total && len(getRules()) == total, "GetRules reports exactly the enforced rules")
 	}
 	rt.Reach("c13.done")
+}
+
+// verifIsValidSys asks the validity check about a throw-away copy.
+func verifIsValidSys(r *Rule) bool {
+	c := *r
+	return IsValidSystemRule(&c) == nil
 }
